@@ -16,7 +16,7 @@ use std::collections::{BTreeSet, HashSet};
 const STREAM: u64 = 3;
 
 pub fn run(ctx: &Ctx) -> Report {
-    let n = ctx.cases(4_000, 200_000);
+    let n = ctx.cases(4_000, 80_000);
     let local = run_cases(ctx, n, |case, l| one_case(ctx, case, l));
     let mut rep = Report::new(
         "fault_enumeration",
